@@ -243,3 +243,24 @@ Proof.
   destruct (proj2 (proj2 (proj2 g_complete_all)) ts e (TRP :: k) D f f Hf Hf) as [n' [Hn' E]]; [cbn; reflexivity|].
   rewrite E. apply loop_stops; [exact Hn' | reflexivity].
 Qed.
+
+(* non-vacuity: precedence, left associativity, unary minus and the fold to the left *)
+Definition n (z : Z) : token := TNum (of_dec z 0) None.
+Definition lit (z : Z) : expr := EVal (VAmt (of_dec z 0) None).
+Example ex_precedence :
+  parse_value_expr [TLP; n 1; TPlus; n 2; TStar; n 3; TRP]
+  = POk (VParen (EBin OAdd (lit 1) (EBin OMul (lit 2) (lit 3))), []).
+Proof. reflexivity. Qed.
+Example ex_left_assoc :
+  parse_value_expr [TLP; n 1; TMinus; n 2; TMinus; n 3; TRP]
+  = POk (VParen (EBin OSub (EBin OSub (lit 1) (lit 2)) (lit 3)), []).
+Proof. reflexivity. Qed.
+Example ex_unary_binds_tighter :
+  parse_value_expr [TLP; TMinus; n 1; TStar; n 2; TRP]
+  = POk (VParen (EBin OMul (EUnaryNeg (lit 1)) (lit 2)), []).
+Proof. reflexivity. Qed.
+Example ex_grammar_derivation :
+  derives [TLP; n 1; TPlus; n 2; TStar; n 3; TRP] (VParen (EBin OAdd (lit 1) (EBin OMul (lit 2) (lit 3)))) [].
+Proof. apply parser_is_grammar. reflexivity. Qed.
+Example ex_dangling_operator : parse_value_expr [TLP; n 1; TPlus; TRP] = PFail.
+Proof. reflexivity. Qed.
